@@ -30,7 +30,7 @@ EXPLANATION = (
     "by construction at each of its definitions (constant <= 1, a ratio x/y under the guard x < y, min(x, y)/y, or a percentage of the "
     "state / 100 whose every writer keeps it <= 100) - so the gain is scaled down by no more than the crop's productivity factor. T-COLS: writer lists, column-name "
     "lists and array widths agree; state columns carry the field of the same name, flux columns the designated "
-    "return of the designated process. C06.c also: both seasonal counters are cleared on every path of the season reset; on the net-irrigation valuation no constant store to the net counter in transpiration is reachable. NOT decided: numeric equality of sums (follows from the identities by exact "
+    "return of the designated process. C06.c also: both seasonal counters are cleared on every path of the season reset; on the net-irrigation valuation no constant store to the net counter in transpiration is reachable. C06.f: the yearly CO2 concentration that enters the CO2-adjusted water productivity is interpolated from the user's table sorted by year (np.interp needs ascending years; an unsorted table is valid input). NOT decided: numeric equality of sums (follows from the identities by exact "
     "arithmetic only).")
 
 IN_SEASON = {"growing_season is True": True, "growing_season is False": False}
@@ -683,4 +683,7 @@ def run(chk, prog, tier):
     rule_c(chk, prog, s, fs)
     rule_d(chk, prog, fs)
     tcols(chk, prog)
+    # C06.f: the CO2 concentration behind the CO2-adjusted water productivity is interpolated from the user's table in ascending year order
+    from ._siblings import interp_sorted
+    chk.floor("C06.f", interp_sorted(chk, prog, "C06.f", "compute_variables"), 1, "interpolations of the CO2 table")
     chk.exhaustive = True
